@@ -214,7 +214,7 @@ pub fn cut_collect_ids(remote_nodes: &mut HashSet<NodeIdentifier>, nodes: HashSe
 //@ attr #[verifier::loop_isolation(false)]
 //@ rewrite E3 "crate::Error" => "crate_error::Error" x*
 //@ cut "for node in nodes" => "cut_collect_ids(&mut remote_nodes, nodes);"
-//@ rewrite E21 "for mut node in nodes \{" => "for node0 in it: nodes invariant all_nodes_ok(it.seq()), all_rows_ok(nodes_to_insert@), all_rows_as_announced(nodes_to_insert@), rows_from(nodes_to_insert@, it.seq()), all_wanted_in(wanted, nodes_to_insert@), ingested ==> has_changes, { let mut node = node0;" x2
+//@ rewrite E21 "for mut node in nodes \{" => "for node0 in it: nodes invariant all_nodes_ok(it.seq()), all_rows_ok(nodes_to_insert@), all_rows_as_announced(nodes_to_insert@), rows_from(nodes_to_insert@, it.seq()), all_wanted_in(wanted, nodes_to_insert@), ingested ==> has_changes, { let mut node = node0; let ghost wanted_before = wanted;" x2
 //@ loop "while let Some(edge_deletion) = edge_deletion_recv.recv().await"
             invariant
                 // [whatever_was_ingested_so_far_is_a_change]{C18}
@@ -275,7 +275,6 @@ pub fn cut_collect_ids(remote_nodes: &mut HashSet<NodeIdentifier>, nodes: HashSe
 //@ insert-each after-stmt ".verify_nodes(nodes)"
                     proof { row_batches = row_batches.push(nodes@); wanted = Seq::empty(); }
 //@ insert-each before-stmt "if !nti.is_older_than_announced(&node) {"
-                            let ghost wanted_before = wanted;
                             proof { if !newer_v(nti.announced_mdate, nti.announced_signature@, node.mdate, node._signature@) { wanted = wanted.push(node); } }
 //@ insert-each after-stmt "nodes_to_insert.push(nti);"
                                 proof { lemma_wanted_step(wanted_before, b_before, it.seq()[it.index@ as int], x_pushed); }
